@@ -858,7 +858,7 @@ Qed.
    the end of hand-picked prefixes that reach the interesting regions (failed attempt with pending SetResult,
    success, spawner cancelled, callback returning Canceled, cancelled caller at the gate).  The sweep returns the
    number of accepted sequences it explored, 0 as soon as a monitor reports a failure.
-   (The unbounded statement -- for ALL accepted event lists -- is not proved.) *)
+   (The unbounded statement -- for ALL accepted event lists -- is proved in ProofsMon2.v / ProofsMonMemo.v.) *)
 Definition once_alphabet (h : hst) : list (list N) :=
   ([1; 0] :: [1; 1] ::
   flat_map (fun i : nat => let j := N.of_nat i in
